@@ -31,16 +31,12 @@ fn c17_blocks_le_margin_and_within_one_step() {
 }
 
 // ---- transactions entity -----------------------------------------------------------------------
-#[kani::proof]
-#[kani::stub(std::backtrace::Backtrace::capture, stub_backtrace)]
-fn c17_transactions_le_margin_and_within_one_step() {
-    let (tip, sec, step): (u64, u64, u64) = (kani::any(), kani::any(), kani::any());
+fn check_transactions(tip: u64, sec: u64, step: u64, s: u64) {
     let cfg = CardanoTransactionsSigningConfig {
         security_parameter: BlockNumberOffset(sec),
         step: BlockNumber(step),
     };
     let r = *cfg.compute_block_number_to_be_signed(BlockNumber(tip));
-    let s = std::cmp::max(step / 15 * 15, 15);
     let x = margin(tip, sec);
     kani::cover!(r > 0 && step > 15, "non-trivial beacon reachable");
     assert!(r <= x, "C17.1 transactions: beacon <= tip - security (floored at 0)");
@@ -50,6 +46,45 @@ fn c17_transactions_le_margin_and_within_one_step() {
     } else {
         assert!(r == 0, "C17.post transactions: nothing to sign before the first step");
     }
+}
+
+// Modular proof of the transactions method: the private free function `compute_block_number_to_be_signed` is replaced
+// by a contract stub (an arbitrary result, operands recorded); its own contract is what the blocks harness proves, since
+// CardanoBlocksTransactionsSigningConfig::compute_block_number_to_be_signed calls it with (tip, security, step) unchanged.
+static mut FREE_FN_LOG: Option<(u64, u64, u64, u64)> = None; // (block number, security, step, result)
+fn stub_free_compute(block_number: BlockNumber, security_parameter: BlockNumberOffset, step: BlockNumber) -> BlockNumber {
+    let r: u64 = kani::any();
+    unsafe { FREE_FN_LOG = Some((*block_number, *security_parameter, *step, r)) };
+    BlockNumber(r)
+}
+
+/// transactions method == free_fn(tip, security, max(15*floor(step/15), 15)) - 1 (saturating), for all inputs;
+/// step written as 15*k + rem so that the harness needs no division of its own
+#[kani::proof]
+#[kani::stub(compute_block_number_to_be_signed, stub_free_compute)]
+fn c17_transactions_adjusts_step_and_subtracts_one() {
+    let (tip, sec, k, rem): (u64, u64, u64, u64) = (kani::any(), kani::any(), kani::any(), kani::any());
+    kani::assume(rem < 15 && k <= (u64::MAX - rem) / 15);
+    let step = 15 * k + rem; // every u64 is of this form exactly once
+    let cfg = CardanoTransactionsSigningConfig {
+        security_parameter: BlockNumberOffset(sec),
+        step: BlockNumber(step),
+    };
+    let r = *cfg.compute_block_number_to_be_signed(BlockNumber(tip));
+    let log = unsafe { FREE_FN_LOG };
+    kani::cover!(k > 1, "step above one block range");
+    assert!(log.is_some(), "C17 transactions: delegates to the shared beacon formula");
+    let (b, s, st, res) = log.unwrap();
+    assert!(b == tip && s == sec, "C17 transactions: tip and security parameter passed unchanged");
+    assert!(st == std::cmp::max(15 * k, 15), "C17 transactions: step rounded down to a multiple of the block range length, at least one range");
+    assert!(r == res.saturating_sub(1), "C17 transactions: last block of the range before the multiple");
+}
+
+/// the same obligation with the adjusted step recomputed by division in the harness (slow: thorough tier)
+#[kani::proof]
+fn c17_transactions_le_margin_and_within_one_step() {
+    let (tip, sec, step): (u64, u64, u64) = (kani::any(), kani::any(), kani::any());
+    check_transactions(tip, sec, step, std::cmp::max(step / 15 * 15, 15));
 }
 
 #[kani::proof]
